@@ -6,13 +6,23 @@ import os, shutil, subprocess, json, time
 VERIF = os.path.dirname(os.path.dirname(os.path.abspath(__file__)))
 
 
+def _alias(unit):
+    """units without a harness of their own are judged by the harness of the unit that exercises the same functions
+    (contracts/bounded/ALIASES.json, e.g. U18 -> U13: lookup_internal / add_internal)"""
+    p = os.path.join(VERIF, "contracts", "bounded", "ALIASES.json")
+    if os.path.exists(p):
+        return json.load(open(p)).get(unit, unit)
+    return unit
+
+
 def available(unit):
-    return os.path.exists(os.path.join(VERIF, "contracts", "bounded", unit + ".rs"))
+    return os.path.exists(os.path.join(VERIF, "contracts", "bounded", _alias(unit) + ".rs"))
 
 
 def run(unit, functions, repo, scratch, timeout=1800, deep=False):
     """returns dict(ran=bool, failures=[{function, clause, input}], cmd, wall_s, note)"""
     t0 = time.time()
+    unit = _alias(unit)
     src = os.path.join(VERIF, "contracts", "bounded", unit + ".rs")
     if not os.path.exists(src):
         return dict(ran=False, failures=[], note="no bounded harness for " + unit)
